@@ -88,6 +88,12 @@ ux_enum!(
 ux_struct!(S4, S4Owned, S4Sized, S4Init, sized { k: u8 }, fields { e: E1, s: Set<u8, u8>, e2: E2 });
 ux_struct!(S5, S5Owned, S5Sized, S5Init, sized { v: bool }, fields { e: E1, st: UnsizedString<u8> });
 ux_struct!(S6, S6Owned, S6Init, fields { tail: RemainingBytes });
+ux_struct!(S7, S7Owned, S7Init, fields { m: Map<u8, u8, u8>, tail: RemainingBytes });
+ux_struct!(
+    S8, S8Owned, S8Sized, S8Init,
+    sized { tag: u8 },
+    fields { s: Set<PackedValue<u16>, u64>, m: Map<PackedValue<u16>, bool, u16>, tail: RemainingBytes }
+);
 
 /// A GENERIC `#[unsized_type]` struct: for generic structs the macro writes the sized part's
 /// `CheckedBitPattern` impl itself (`struct_impl.rs` `sized_bytemuck_derives`) instead of deriving it.
@@ -346,13 +352,41 @@ pub trait DynType: Sync + Send {
     fn des_account(&self, _bytes: &[u8]) -> Option<Result<Val, String>> {
         None
     }
+    /// `None`: not available for this type (the account wrapper) or value not representable.
+    fn resize(&self, _v1: &Val, _v2: &Val) -> Option<Result<(Vec<u8>, Val), String>> {
+        None
+    }
 }
 
-pub struct Entry<T: ?Sized>(PhantomData<fn() -> Box<T>>);
+/// `TestByteSet::new(v1)`, `data_mut()?.set_from_owned(v2)`, then `(underlying_data(), owned())`.
+pub type ResizeFn = fn(&Val, &Val) -> Option<Result<(Vec<u8>, Val), String>>;
+
+pub struct Entry<T: ?Sized>(PhantomData<fn() -> Box<T>>, Option<ResizeFn>);
 impl<T: ?Sized> Entry<T> {
     pub const fn new() -> Self {
-        Entry(PhantomData)
+        Entry(PhantomData, None)
     }
+    pub const fn with_resize(f: ResizeFn) -> Self {
+        Entry(PhantomData, Some(f))
+    }
+}
+
+pub fn resize_generic<T: Ux + ?Sized>(v1: &Val, v2: &Val) -> Option<Result<(Vec<u8>, Val), String>>
+where
+    T::Ptr: star_frame::unsize::UnsizedTypePtr<UnsizedType = T>,
+{
+    let o1 = T::from_val(v1)?;
+    let o2 = T::from_val(v2)?;
+    Some((|| {
+        let tbs = TestByteSet::<T>::new(o1).map_err(class_of)?;
+        {
+            let mut w = tbs.data_mut().map_err(class_of)?;
+            w.set_from_owned(o2).map_err(class_of)?;
+        }
+        let data = tbs.underlying_data().map_err(class_of)?;
+        let o = tbs.owned().map_err(class_of)?;
+        Ok((data, T::to_val(&o)))
+    })())
 }
 
 fn with_bounds<X>(g: &GuardAccess, f: impl FnOnce() -> X) -> X {
@@ -431,6 +465,9 @@ impl<T: Ux + ?Sized> DynType for Entry<T> {
         drop(w);
         r
     }
+    fn resize(&self, v1: &Val, v2: &Val) -> Option<Result<(Vec<u8>, Val), String>> {
+        (self.1?)(v1, v2)
+    }
 }
 
 /// Entry for a program account `T`: every op goes through `AccountDiscriminant<T>`, plus the client
@@ -487,7 +524,7 @@ pub type Registry = Vec<(&'static str, Box<dyn DynType>)>;
 pub fn registry() -> Registry {
     macro_rules! e {
         ($n:literal, $t:ty) => {
-            ($n, Box::new(Entry::<$t>::new()) as Box<dyn DynType>)
+            ($n, Box::new(Entry::<$t>::with_resize(resize_generic::<$t>)) as Box<dyn DynType>)
         };
     }
     vec![
@@ -522,6 +559,11 @@ pub fn registry() -> Registry {
         e!("T29", UnsizedList<List<u8, u32>>),
         e!("T30", G1<Color, UnsizedList<List<u8, u8>>>),
         e!("T31", UnsizedList<G1<Rec1, UnsizedString<u8>>>),
+        e!("T32", S7),
+        e!("T33", S8),
+        e!("T34", UnsizedMap<u8, E1>),
+        e!("T35", Set<PackedValue<u16>, u64>),
+        e!("T36", Map<u8, PackedValue<u32>, u16>),
         ("A01", Box::new(AcctEntry::<Acct1>::new()) as Box<dyn DynType>),
         ("A02", Box::new(AcctEntry::<Acct2>::new()) as Box<dyn DynType>),
     ]
